@@ -5,7 +5,7 @@ ren_translate.  Oracles: permutation test, a run-reversal model built from the c
 CR2L / CNEUT read from conf.h, and Unicode decomposition data (Python's unicodedata) for the
 presentation forms and the joining behaviour of letters.
 """
-import itertools, os, unicodedata
+import itertools, os, re, unicodedata
 import common, tables
 from common import pmap, rng, build, VERIF
 
@@ -60,6 +60,58 @@ def model_ord(s, ctx, R2L, NEUT):
                     i = j + 1
                     continue
         i += 1
+    return ordv
+
+
+_MARKS = None
+
+
+def model_ord_marks(s, ctx):
+    """reference for dir_reorder with the configured direction marks (conf.h dirmarks[], parsed at run time): leftmost mark,
+    first alternative first; the matched span is reversed when the surrounding direction is right-to-left, the marked
+    (sub)span when its own direction is; a sub-group is scanned again in its own direction"""
+    global _MARKS
+    if _MARKS is None:
+        ms = tables.dirmarks()
+        if not ms:
+            return None
+        _MARKS = [(c, d, g, re.compile(p)) for c, d, g, p in ms]
+    body = s[:-1] if s.endswith('\n') else s
+    ordv = list(range(len(s)))
+
+    def rev(a, b):
+        ordv[a:b] = ordv[a:b][::-1]
+
+    def find(beg, end, d):
+        text = body[beg:end]
+        for i in range(len(text)):
+            for mctx, mdir, grp, rx in _MARKS:
+                if (mctx >= 0) if d > 0 else (mctx <= 0):
+                    m = rx.match(text, i)
+                    if m and m.end() > m.start():
+                        cb, ce = (m.start(grp), m.end(grp)) if grp and m.start(grp) >= 0 else (m.start(), m.end())
+                        return beg + m.start(), beg + m.end(), beg + cb, beg + ce, mdir, grp > 0
+        return None
+
+    def fix(d, beg, end, depth=0):
+        if depth > 40:
+            raise RecursionError
+        while beg < end:
+            f = find(beg, end, d)
+            if f is None:
+                break
+            rb, re_, cb, ce, cd, rec = f
+            if d < 0:
+                rev(rb, re_)
+            if cd < 0:
+                rev(cb, ce)
+            if cb == rb:
+                cb += 1
+            if rec:
+                fix(cd, cb, ce, depth + 1)
+            beg = re_
+
+    fix(ctx, 0, len(body))
     return ordv
 
 
@@ -121,6 +173,15 @@ def check_dir(args):
                     i += 1
         if any(c in s for c in '\\$'):
             marked += 1
+        if len(s) <= 120:
+            # the full reference, marks included (short lines only: the engine's backtracking depth limit bends long matches)
+            try:
+                full = model_ord_marks(s, ctx)
+            except RecursionError:
+                full = None
+            if full is not None and ordv != full:
+                bad.append(('dir:marks', 'line %r td=%d ctx=%d: ord=%s, the mark-by-mark reference gives %s' % (s, td, ctx, ordv, full), wit))
+                continue
         exp = model_ord(s, ctx, R2L, NEUT)
         if exp is None:
             continue
@@ -252,7 +313,7 @@ def check_shape(args):
         changed = False
         for i, tokn in enumerate(f[1:]):
             sh, tr = tokn.split('/')
-            got = None if sh == '~' else bytes.fromhex(sh).decode('utf-8', 'replace')
+            got = None if sh == '~' else ('' if sh == '-' else bytes.fromhex(sh).decode('utf-8', 'replace'))
             wit = {'line': s, 'hex': s.encode().hex(), 'index': i}
             c = cps[i]
             if c in letters or c in (0x640, 0x200c, 0x200d):
@@ -268,7 +329,7 @@ def check_shape(args):
                 if got is not None and got != s[i]:
                     bad.append(('shape:alters-other', 'line %r char #%d U+%04X (not a shaped letter) became %r' % (s, i, c, got), wit))
             # ren_translate = placeholder, else the shape (only when the option is on)
-            trv = None if tr == '~' else bytes.fromhex(tr).decode('utf-8', 'replace')
+            trv = None if tr == '~' else ('' if tr == '-' else bytes.fromhex(tr).decode('utf-8', 'replace'))
             if s[i] in ph:
                 if trv != ph[s[i]]:
                     bad.append(('translate:placeholder', 'line %r char #%d: placeholder %r expected %r' % (s, i, trv, ph[s[i]]), wit))
@@ -309,8 +370,11 @@ def run(tier, V):
         wrap = R.choice(['\\emph{%s}', '\\*[%s]', '\\x{%s}', '$%s$', '\\f%s', '%s'])
         pre = ''.join(R.choice(words) for _ in range(R.randint(0, 3)))
         post = ''.join(R.choice(words) for _ in range(R.randint(0, 3)))
+        if R.random() < 0.3:
+            inner += R.choice(['سلام', 'عربي'])
+            post = R.choice([' ', '، ', ', ', ') ']) + R.choice(['سلام', 'عربي', 'من']) + post
         lines.append(pre + (wrap % inner) + post + '\n')
-    for m in ['\\*[ab ب]', '$x ب y$', '\\emph{ab سلام cd}', 'سلام \\emph{abc عربي def} x', 'ب $a+b$ ب', '\\x{ب}', 'سلام \\foo bar']:
+    for m in ['\\emph{سلام} علیکم x', 'ab \\emph{عربي من} سلام, x', '\\emph{abc سلام}، عربي', '\\emph{سلام}, عربي من', 'x \\textbf{من} (سلام) y', '\\*[ab ب]', '$x ب y$', '\\emph{ab سلام cd}', 'سلام \\emph{abc عربي def} x', 'ب $a+b$ ب', '\\x{ب}', 'سلام \\foo bar']:
         lines.append(m + '\n')
         lines.append('ب ' + m + ' ا\n')
     jobs = []
